@@ -270,6 +270,33 @@ theorem total_sfIns1 {T} (supp : Supp1) (l : List SfIn1) (ms : Mid) (R : List (K
   obtain ⟨c, hcl⟩ := claimPortion_total hle hv hp
   rw [hcl]; exact ⟨_, rfl⟩
 
+/-- variant of `total_sfIns1` that only needs the looked-up elements to have `claimStart ≤ pool`, `value ≤ 10000` -/
+theorem total_sfIns1_weak {T} (supp : Supp1) (l : List SfIn1) (ms : Mid) (R : List (Kind × Id)) (hc : Ctx T ms.base)
+    (hI : Inv T ms) (hs : ∀ sfi ∈ l, PendSf1 T ms supp sfi) (hn : (l.map (·.parent)).Nodup)
+    (hF : Fresh T ms (l.map (fun i => (Kind.sc, i.claimId)) ++ R))
+    (hcl : ∀ sfi ∈ l, ∃ e, ms.sfElement supp sfi.parent = some e ∧ e.claimStart ≤ ms.pool ∧ e.value ≤ 10000)
+    (hp : ms.pool < curLimit) :
+    ∃ ms', l.foldlM (stepSfIn1 supp) ms = .ok ms' := by
+  apply foldlM_total_of_prefix
+  intro pre a post ms_pre hl hpre
+  subst hl
+  simp only [List.map_append, List.map_cons, List.append_assoc] at hF hn
+  obtain ⟨r, F, _, eS, ep, eW, _⟩ := loop_sfIns1 supp pre ms ms_pre _ hc hI
+    (fun sfi h => hs sfi (List.mem_append_left _ h)) (List.nodup_append.mp hn).1 hF hpre
+  have hsa := hs a (List.mem_append_right _ List.mem_cons_self)
+  have hnot : ¬ (a.parent ∈ pre.map (·.parent) ∨ a.parent ∈ pre.map (·.claimId)) := by
+    rintro (hm | hm)
+    · exact (List.nodup_append.mp hn).2.2 _ hm _ List.mem_cons_self rfl
+    · obtain ⟨x, hx, he⟩ := List.mem_map.mp hm
+      exact hsa.not_fresh hF (Kind.sc, x.claimId) (List.mem_append_left _ (List.mem_map_of_mem hx)) he
+  obtain ⟨e0, h0, hle, hv⟩ := hcl a (List.mem_append_right _ List.mem_cons_self)
+  have he1 : ms_pre.sfElement supp a.parent = some e0 := by rw [sfElement_agree r.agree supp hnot]; exact h0
+  unfold stepSfIn1
+  rw [he1]; simp only []
+  rw [ep]
+  obtain ⟨c, hcl'⟩ := claimPortion_total hle hv hp
+  rw [hcl']; exact ⟨_, rfl⟩
+
 -- ------------------------------------------------------------------ list sums
 
 theorem sum_le_sum_map {α : Type} (l : List α) (f g : α → Nat) (h : ∀ x ∈ l, f x ≤ g x) :
@@ -649,6 +676,187 @@ theorem v1txn_total {T} {ms : Mid} {t : Txn1} {pid : Id} {mw : Nat} {R : List (K
     rw [(hmix hne).2.2.2]; simp
   obtain ⟨ms7, a7⟩ := total_proofs1 t.supp t.proofs ms6 R hc6 r6.inv pPr6 hprn F6
   refine ⟨foundation1 ms7 t, ?_⟩
+  rw [applyTransaction_eq_c1, bind_eq_ok]; refine ⟨ms1, a1, ?_⟩
+  rw [bind_eq_ok]; refine ⟨ms2, a2, ?_⟩
+  rw [bind_eq_ok]; refine ⟨ms3, a3, ?_⟩
+  rw [bind_eq_ok]; refine ⟨ms4, a4, ?_⟩
+  rw [bind_eq_ok]; refine ⟨ms5, a5, ?_⟩
+  rw [bind_eq_ok]; refine ⟨ms6, a6, ?_⟩
+  rw [bind_eq_ok]; exact ⟨ms7, a7, rfl⟩
+
+/-- weak variant: `applyTransaction` returns after validation, and the structural invariant is kept; only
+per-element bounds on the siafund parents and the tax-pool check are used (no solvency) -/
+theorem v1txn_weak {T} {ms : Mid} {t : Txn1} {pid : Id} {mw : Nat} {R : List (Kind × Id)}
+    (hc : Ctx T ms.base) (hI : Inv T ms) (hsupp : SuppOk ms.base t.supp)
+    (hF : Fresh T ms (t.created ++ R))
+    (hlen : ∀ sp ∈ t.proofs, ∀ e, ms.fc1Element t.supp sp.parent = some e → e.fc.valid.length ≤ sp.outIds.length)
+    (hclaim : ∀ sfi ∈ t.sfIns, ∀ e, ms.sfElement t.supp sfi.parent = some e → e.claimStart ≤ ms.pool ∧ e.value ≤ 10000)
+    (hpool : ms.pool + t.taxes ms.base < curLimit)
+    (hv : validateTransaction ms t pid mw = .ok ()) :
+    ∃ ms', applyTransaction ms t = .ok ms' ∧ Inv T ms' ∧ Fresh T ms' R ∧ ms'.base = ms.base ∧
+      ms'.pool = ms.pool + t.taxes ms.base := by
+  obtain ⟨hv1, hv2, hv3, hv4⟩ := validateTransaction_ok hv
+  obtain ⟨hsc, hbal⟩ := validateSiacoins1_ok hv1
+  obtain ⟨hsf, hsfbal⟩ := validateSiafunds1_ok hv2
+  obtain ⟨hfcs, hrevs, hprn, hprs, hmix⟩ := validateFileContracts1_ok hv3
+  have hnd := validateSignatures_ok hv4
+  rw [List.nodup_append] at hnd
+  obtain ⟨hnd12, hndr, _⟩ := hnd
+  rw [List.nodup_append] at hnd12
+  obtain ⟨hndsc, hndsf, _⟩ := hnd12
+  -- preconditions relative to the state before the transaction
+  have pSc : ∀ sci ∈ t.scIns, PendSc1 T ms t.supp sci := fun sci h => by
+    obtain ⟨h1, p, hp, _⟩ := hsc sci h; exact pendSc1_of hc hI hsupp h1 hp
+  have pSf : ∀ sfi ∈ t.sfIns, PendSf1 T ms t.supp sfi := fun sfi h => by
+    obtain ⟨h1, p, hp⟩ := hsf sfi h; exact pendSf1_of hc hI hsupp h1 hp
+  have pRev : ∀ r ∈ t.revs, PendRev1 T ms t.supp r := fun r h => by
+    obtain ⟨h1, p, hp, h2, h3⟩ := hrevs r h
+    obtain ⟨hid, hl⟩ := liveFc1_of hc hI hsupp h1 hp
+    exact ⟨p, hp, hid, hl, h2, h3⟩
+  have pPr : ∀ sp ∈ t.proofs, PendProof1 T ms t.supp sp := fun sp h => by
+    obtain ⟨h1, e, he⟩ := hprs sp h
+    obtain ⟨hid, hl⟩ := liveFc1_of hc hI hsupp h1 he
+    exact ⟨e, he, hid, hl, hlen sp h e he⟩
+  -- kinds of the parents
+  have kSc : ∀ sci ∈ t.scIns, T Kind.sc sci.parent := fun sci h => by
+    obtain ⟨e, _, h2, h3⟩ := pSc sci h; exact h2 ▸ h3.1
+  have kSf : ∀ sfi ∈ t.sfIns, T Kind.sf sfi.parent := fun sfi h => by
+    obtain ⟨e, _, h2, h3⟩ := pSf sfi h; exact h2 ▸ h3.1
+  have kRev : ∀ r ∈ t.revs, T Kind.fc1 r.parent := fun r h => by
+    obtain ⟨e, _, h2, h3, _⟩ := pRev r h; exact h2 ▸ h3.1
+  have kPr : ∀ sp ∈ t.proofs, T Kind.fc1 sp.parent := fun sp h => by
+    obtain ⟨e, _, h2, h3, _⟩ := pPr sp h; exact h2 ▸ h3.1
+  unfold Txn1.created at hF
+  simp only [List.append_assoc] at hF
+  -- 1. siacoin inputs
+  obtain ⟨ms1, a1⟩ := total_scIns1 t.supp t.scIns ms hc hI pSc hndsc
+  obtain ⟨r1, e1P, e1S, e1p, e1W⟩ := loop_scIns1 t.supp t.scIns ms ms1 hc hI pSc hndsc a1
+  have F1 := hF.agree r1.agree (by
+    intro q hq hm
+    obtain ⟨sci, hs, he⟩ := List.mem_map.mp hm
+    obtain ⟨e, _, h2, h3⟩ := pSc sci hs
+    exact h3.not_fresh hF q hq (he.symm.trans h2.symm))
+  have hc1 : Ctx T ms1.base := by rw [r1.base]; exact hc
+  -- 2. siacoin outputs
+  obtain ⟨ms2, a2⟩ : ∃ m, t.scOuts.foldlM stepScOut ms1 = .ok m :=
+    foldlM_total_pure (fun (s : Mid) (x : Id × ScOut) => s.createSc x.1 x.2) _ _
+  obtain ⟨r2, F2, e2P, e2S, e2p, e2W⟩ := loop_scOuts t.scOuts ms1 ms2 _ hc1 r1.inv F1 a2
+  have hc2 : Ctx T ms2.base := by rw [r2.base]; exact hc1
+  have inF_scOut : ∀ x, x ∈ t.scOuts.map (·.1) → ∃ q ∈ (t.scOuts.map (fun x => (Kind.sc, x.1)) ++ (t.sfIns.map (fun i => (Kind.sc, i.claimId)) ++
+      (t.sfOuts.map (fun x => (Kind.sf, x.1)) ++ (t.fcs.map (fun x => (Kind.fc1, x.1)) ++ (t.proofs.flatMap Proof1.created ++ R))))), q.2 = x := by
+    intro x hx
+    obtain ⟨o, ho, he⟩ := List.mem_map.mp hx
+    exact ⟨(Kind.sc, o.1), List.mem_append_left _ (List.mem_map_of_mem ho), he⟩
+  have inF_claim : ∀ x, x ∈ t.sfIns.map (·.claimId) → ∃ q ∈ (t.scOuts.map (fun x => (Kind.sc, x.1)) ++ (t.sfIns.map (fun i => (Kind.sc, i.claimId)) ++
+      (t.sfOuts.map (fun x => (Kind.sf, x.1)) ++ (t.fcs.map (fun x => (Kind.fc1, x.1)) ++ (t.proofs.flatMap Proof1.created ++ R))))), q.2 = x := by
+    intro x hx
+    obtain ⟨o, ho, he⟩ := List.mem_map.mp hx
+    exact ⟨(Kind.sc, o.claimId), List.mem_append_right _ (List.mem_append_left _ (List.mem_map_of_mem ho)), he⟩
+  have inF_sfOut : ∀ x, x ∈ t.sfOuts.map (·.1) → ∃ q ∈ (t.scOuts.map (fun x => (Kind.sc, x.1)) ++ (t.sfIns.map (fun i => (Kind.sc, i.claimId)) ++
+      (t.sfOuts.map (fun x => (Kind.sf, x.1)) ++ (t.fcs.map (fun x => (Kind.fc1, x.1)) ++ (t.proofs.flatMap Proof1.created ++ R))))), q.2 = x := by
+    intro x hx
+    obtain ⟨o, ho, he⟩ := List.mem_map.mp hx
+    exact ⟨(Kind.sf, o.1), List.mem_append_right _ (List.mem_append_right _ (List.mem_append_left _ (List.mem_map_of_mem ho))), he⟩
+  have inF_fc : ∀ x, x ∈ t.fcs.map (·.1) → ∃ q ∈ (t.scOuts.map (fun x => (Kind.sc, x.1)) ++ (t.sfIns.map (fun i => (Kind.sc, i.claimId)) ++
+      (t.sfOuts.map (fun x => (Kind.sf, x.1)) ++ (t.fcs.map (fun x => (Kind.fc1, x.1)) ++ (t.proofs.flatMap Proof1.created ++ R))))), q.2 = x := by
+    intro x hx
+    obtain ⟨o, ho, he⟩ := List.mem_map.mp hx
+    exact ⟨(Kind.fc1, o.1), List.mem_append_right _ (List.mem_append_right _ (List.mem_append_right _
+      (List.mem_append_left _ (List.mem_map_of_mem ho)))), he⟩
+  -- 3. siafund inputs
+  have pSf2 : ∀ sfi ∈ t.sfIns, PendSf1 T ms2 t.supp sfi := by
+    intro sfi h
+    have h0 := pSf sfi h
+    refine (h0.agree r1.agree ?_).agree r2.agree ?_
+    · intro hm
+      obtain ⟨sci, hs, he⟩ := List.mem_map.mp hm
+      have := hc.disj _ _ _ (kSc sci hs) (he ▸ kSf sfi h); cases this
+    · intro hm
+      obtain ⟨q, hq, he⟩ := inF_scOut _ hm
+      exact h0.not_fresh hF q hq he
+  have hp2 : ms2.pool = ms.pool := by rw [e2p, e1p]
+  have hpl : ms.pool < curLimit := by unfold Cur at *; omega
+  have hcl2 : ∀ sfi ∈ t.sfIns, ∃ e, ms2.sfElement t.supp sfi.parent = some e ∧ e.claimStart ≤ ms2.pool ∧ e.value ≤ 10000 := by
+    intro sfi h
+    have h0 := pSf sfi h
+    obtain ⟨e, he1, _, _⟩ := h0
+    obtain ⟨b1, b2⟩ := hclaim sfi h e he1
+    refine ⟨e, ?_, by rw [hp2]; exact b1, b2⟩
+    rw [sfElement_agree r2.agree, sfElement_agree r1.agree]
+    · exact he1
+    · intro hm
+      obtain ⟨sci, hs, he⟩ := List.mem_map.mp hm
+      have := hc.disj _ _ _ (kSc sci hs) (he ▸ kSf sfi h); cases this
+    · intro hm
+      obtain ⟨q, hq, he⟩ := inF_scOut _ hm
+      exact (pSf sfi h).not_fresh hF q hq he
+  obtain ⟨ms3, a3⟩ := total_sfIns1_weak t.supp t.sfIns ms2 _ hc2 r2.inv pSf2 hndsf F2 hcl2 (by rw [hp2]; exact hpl)
+  obtain ⟨r3, F3, e3P, e3S, e3p, e3W, e3Wc⟩ := loop_sfIns1 t.supp t.sfIns ms2 ms3 _ hc2 r2.inv pSf2 hndsf F2 a3
+  have hc3 : Ctx T ms3.base := by rw [r3.base]; exact hc2
+  -- 4. siafund outputs
+  obtain ⟨ms4, a4⟩ : ∃ m, t.sfOuts.foldlM stepSfOut ms3 = .ok m :=
+    foldlM_total_pure (fun (s : Mid) (x : Id × Nat × Addr) => s.createSf x.1 x.2.1 x.2.2) _ _
+  obtain ⟨r4, F4, e4P, e4S, e4p, e4W⟩ := loop_sfOuts t.sfOuts ms3 ms4 _ hc3 r3.inv F3 a4
+  have hc4 : Ctx T ms4.base := by rw [r4.base]; exact hc3
+  -- 5. contract formations
+  have hp4 : ms4.pool = ms.pool := by rw [e4p, e3p, hp2]
+  have hb4' : ms4.base = ms.base := by rw [r4.base, r3.base, r2.base, r1.base]
+  unfold Txn1.taxes at hpool
+  obtain ⟨ms5, a5⟩ := total_fcs1 t.fcs ms4 (by rw [hp4, hb4']; exact hpool)
+  obtain ⟨r5, F5, e5P, e5S, e5p⟩ := loop_fcs1 t.fcs ms4 ms5 _ hc4 r4.inv (fun x hx => (hfcs x hx).1) F4 a5
+  have hc5 : Ctx T ms5.base := by rw [r5.base]; exact hc4
+  have hb4 : ms4.base = ms.base := by rw [r4.base, r3.base, r2.base, r1.base]
+  -- agreement ms → ms5 outside everything touched so far, for ids of kind fc1 that are not fresh
+  have ag5 : ∀ x, T Kind.fc1 x → (∀ q ∈ (t.scOuts.map (fun x => (Kind.sc, x.1)) ++ (t.sfIns.map (fun i => (Kind.sc, i.claimId)) ++
+      (t.sfOuts.map (fun x => (Kind.sf, x.1)) ++ (t.fcs.map (fun x => (Kind.fc1, x.1)) ++ (t.proofs.flatMap Proof1.created ++ R))))), q.2 ≠ x) →
+      ∃ P : Id → Prop, Agree ms ms5 P ∧ ¬ P x := by
+    intro x hk nf
+    refine ⟨fun y => (((y ∈ t.scIns.map (·.parent) ∨ y ∈ t.scOuts.map (·.1)) ∨
+      (y ∈ t.sfIns.map (·.parent) ∨ y ∈ t.sfIns.map (·.claimId))) ∨ y ∈ t.sfOuts.map (·.1)) ∨ y ∈ t.fcs.map (·.1), ?_, ?_⟩
+    · refine ((((r1.agree.mono ?_).trans (r2.agree.mono ?_)).trans (r3.agree.mono ?_)).trans (r4.agree.mono ?_)).trans (r5.agree.mono ?_)
+      · intro y hy; exact Or.inl (Or.inl (Or.inl (Or.inl hy)))
+      · intro y hy; exact Or.inl (Or.inl (Or.inl (Or.inr hy)))
+      · intro y hy; exact Or.inl (Or.inl (Or.inr hy))
+      · intro y hy; exact Or.inl (Or.inr hy)
+      · intro y hy; exact Or.inr hy
+    · rintro (((((hm | hm) | (hm | hm)) | hm)) | hm)
+      · obtain ⟨sci, hs, he⟩ := List.mem_map.mp hm
+        have := hc.disj _ _ _ (kSc sci hs) (he ▸ hk); cases this
+      · obtain ⟨q, hq, he⟩ := inF_scOut _ hm; exact nf q hq he
+      · obtain ⟨sfi, hs, he⟩ := List.mem_map.mp hm
+        have := hc.disj _ _ _ (kSf sfi hs) (he ▸ hk); cases this
+      · obtain ⟨q, hq, he⟩ := inF_claim _ hm; exact nf q hq he
+      · obtain ⟨q, hq, he⟩ := inF_sfOut _ hm; exact nf q hq he
+      · obtain ⟨q, hq, he⟩ := inF_fc _ hm; exact nf q hq he
+  -- 6. revisions
+  have pRev5 : ∀ r ∈ t.revs, PendRev1 T ms5 t.supp r := by
+    intro r h
+    obtain ⟨P, hA, hnP⟩ := ag5 r.parent (kRev r h) ((pRev r h).not_fresh hF)
+    exact (pRev r h).agree hA hnP
+  obtain ⟨ms6, a6⟩ := total_revs1 t.supp t.revs ms5 hc5 r5.inv pRev5 hndr
+  obtain ⟨r6, e6P, e6S, e6p⟩ := loop_revs1 t.supp t.revs ms5 ms6 hc5 r5.inv pRev5 hndr a6
+  have hc6 : Ctx T ms6.base := by rw [r6.base]; exact hc5
+  have F6 := F5.agree r6.agree (by
+    intro q hq hm
+    obtain ⟨r, hr, he⟩ := List.mem_map.mp hm
+    exact (pRev5 r hr).not_fresh F5 q hq he.symm)
+  -- 7. storage proofs
+  have pPr6 : ∀ sp ∈ t.proofs, PendProof1 T ms6 t.supp sp := by
+    intro sp h
+    obtain ⟨P, hA, hnP⟩ := ag5 sp.parent (kPr sp h) ((pPr sp h).not_fresh hF)
+    refine ((pPr sp h).agree hA hnP).agree r6.agree ?_
+    have hne : t.proofs ≠ [] := by intro he; rw [he] at h; cases h
+    rw [(hmix hne).2.2.2]; simp
+  obtain ⟨ms7, a7⟩ := total_proofs1 t.supp t.proofs ms6 R hc6 r6.inv pPr6 hprn F6
+  obtain ⟨r7, F7, e7P, e7S, e7p, e7W⟩ := loop_proofs1 t.supp t.proofs ms6 ms7 R hc6 r6.inv pPr6 hprn F6 a7
+  obtain ⟨f1, f2, f3, f4, f5, f6, f7, f8⟩ := foundation1_fields ms7 t
+  have hb7 : ms7.base = ms.base := by
+    rw [r7.base, r6.base, r5.base, r4.base, r3.base, r2.base, r1.base]
+  refine ⟨foundation1 ms7 t, ?_, r7.inv.scalars f1 f2 f3 f4 f5 f6 f7,
+    F7.agree (agree_scalars f1 f2 f3 f4 f5 f6 f7 (fun _ => False)) (fun _ _ h => h), f1.trans hb7, ?_⟩
+  rotate_left 1
+  · unfold Txn1.taxes
+    rw [f8, e7p, e6p, e5p, e4p, e3p, e2p, e1p, hb4']
   rw [applyTransaction_eq_c1, bind_eq_ok]; refine ⟨ms1, a1, ?_⟩
   rw [bind_eq_ok]; refine ⟨ms2, a2, ?_⟩
   rw [bind_eq_ok]; refine ⟨ms3, a3, ?_⟩
